@@ -67,12 +67,13 @@ func (r *Rule) serves(prop string) bool {
 }
 
 type RuleCtx struct {
-	judged    map[*ssa.Function]bool     // scratch of R15b (functions already judged as producers in this run)
-	r6Cleanup map[*ssa.Call]acquirerInfo // scratch of R6: acquisition calls that also hand back a cleanup closure
-	r6Fail    map[*ssa.Function]uint64   // scratch of R6: what a delegate has certainly done when it returns an error
-	p         *Program
-	rule      *Rule
-	obs       []Obligation
+	judged     map[*ssa.Function]bool     // scratch of R15b (functions already judged as producers in this run)
+	r6Cleanup  map[*ssa.Call]acquirerInfo // scratch of R6: acquisition calls that also hand back a cleanup closure
+	r6Fail     map[*ssa.Function]uint64   // scratch of R6: what a delegate has certainly done when it returns an error
+	r6FailFlag map[*ssa.Function]bool     // delegates that may leave the owner marked committed although they report a failure
+	p          *Program
+	rule       *Rule
+	obs        []Obligation
 }
 
 func (c *RuleCtx) add(st Status, key, pos, what, detail string, props []string, witness []string) {
@@ -256,6 +257,12 @@ func runRule(r *Rule, p *Program, prop string) (obs []Obligation) {
 			obs = ctx.obs
 		}
 	}()
+	// file-owner types: which fields stand for the file and its path (owners.go); the table lives for the
+	// duration of this rule only
+	if r.ID == "R6" || r.ID == "R7" || r.ID == "R15" {
+		p.owners = fileOwners(p)
+		defer clearAliases(p.SSA)
+	}
 	r.Run(ctx)
 	var sel []Obligation
 	for _, o := range ctx.obs {
